@@ -13,3 +13,4 @@ CONSTANTS
 VIEW view
 INVARIANTS TypeOK GcSafety Reclaimed NoGreyLeft BytesExact FreedDead Pacing
 ACTION_CONSTRAINT EmitCollect
+PROPERTY RefinesPacing
